@@ -342,6 +342,25 @@ def run_apalache(spec_name, text, args, timeout=600):
 # ------------------------------------------------------------------------------------------------
 # evidence / findings / verdicts
 
+def run_tlapm(spec_name, timeout=900):
+    """Checks the proofs of a module of /verif/spec with the TLA+ proof system in a scratch directory; returns the number of
+    obligations proved (raises Machinery when an obligation fails or tlapm is not usable)."""
+    wd = scratch("verif-tlapm-")
+    try:
+        shutil.copy(os.path.join(SPEC, spec_name), os.path.join(wd, spec_name))
+        try:
+            p = subprocess.run(["tlapm", "--threads", "8", "--cleanfp", spec_name], cwd=wd, capture_output=True, text=True, timeout=timeout)
+        except subprocess.TimeoutExpired:
+            raise Machinery("tlapm timed out on %s" % spec_name)
+        out = p.stdout + p.stderr
+        m = re.search(r"All (\d+) obligations? proved", out)
+        if not m:
+            raise Machinery("tlapm does not prove every obligation of %s:\n%s" % (spec_name, out[-1500:]))
+        return int(m.group(1))
+    finally:
+        shutil.rmtree(wd, ignore_errors=True)
+
+
 def load_known():
     p = os.path.join(VERIF, "known_findings.json")
     if not os.path.exists(p):
